@@ -52,6 +52,10 @@ type descriptor struct {
 	// on a mock clock, running from the creation of the instance); "clock"
 	// stimuli stand for its event
 	Timer bool `json:"timer,omitempty"`
+	// InSub (main campaign only): everything behind the start event sits
+	// inside 1..2 nested embedded sub-processes - the host, its boundary
+	// events and the exception paths are wired by the sub-process
+	InSub int `json:"inSub,omitempty"`
 }
 
 type built struct {
@@ -64,6 +68,16 @@ func build(d descriptor) *built {
 	b := gen.NewBStyle(d.IDStyle)
 	bt := &built{g: b.G}
 	st := b.Add(gen.KStart)
+	for lvl := 0; lvl < d.InSub; lvl++ {
+		sp := b.Add(gen.KSub)
+		oe := b.Add(gen.KEnd)
+		b.Connect(st, sp)
+		b.Connect(sp, oe)
+		ib := b.Sub()
+		sp.Inner = ib.G
+		b = ib
+		st = b.Add(gen.KStart)
+	}
 	cur := st
 	if d.PreTask {
 		t := b.Add(gen.KTask)
@@ -214,6 +228,7 @@ func draw(rt *rapid.T) descriptor {
 		}
 	}
 	if exF1 && exF3 {
+		d.InSub = rapid.SampledFrom([]int{0, 0, 1, 2}).Draw(rt, "inSub")
 		// each boundary exactly once while the host waits, in a drawn order, non-matching events in between
 		order := rapid.Permutation(seq(nb)).Draw(rt, "order")
 		for _, i := range order {
@@ -403,6 +418,9 @@ func classify(d descriptor, out *drive.ScriptOutcome) (cls []string, nt bool) {
 	}
 	if d.Timer {
 		cls = append(cls, "timerBoundaryEvent")
+	}
+	if d.InSub > 0 {
+		cls = append(cls, "insideSubProcess")
 	}
 	for _, b := range d.Bounds {
 		if b.Interrupt {
